@@ -57,7 +57,9 @@ def label (s : St) (a : Actor) : Option Label :=
     | .k3 => some { obj := oState, op := "load", res := .num (b2i s.state), ord := "Acquire" }
     | .k4 | .kc3 => some { obj := oWco, op := "opt.take", res := someIf s.wco }
     | .k4r => some lblResume
+    | .k5d => some (lblCst s)
     | .k5 => some { obj := oCco, op := "opt.store", a1 := .ne (-1) }
+    | .k5x => some { obj := oCco, op := "opt.clear" }
     | .k5c => some (lblCst s)
     | .k6 => some { obj := oWk, op := "store", a1 := .num 0, ord := "Release" }
     | _ => none
@@ -89,7 +91,7 @@ def ppcName : PPc → String
   | .pd0pan => "pd0pan" | .pd1 => "pd1" | .pfin => "pfin" | .pdis => "pdis" | .pd2load => "pd2load" | .pen => "pen"
 def kpcName : KPc → String
   | .kidle => "kidle" | .k0 => "k0" | .k1 => "k1" | .k2 => "k2" | .k3 => "k3" | .k4 => "k4" | .k4r => "k4r"
-  | .k5 => "k5" | .k5c => "k5c" | .kc3 => "kc3" | .kc4 => "kc4" | .k6 => "k6"
+  | .k5 => "k5" | .k5d => "k5d" | .k5x => "k5x" | .k5c => "k5c" | .kc3 => "kc3" | .kc4 => "kc4" | .k6 => "k6"
 def vpcName : VPc → String | .vidle => "vidle" | .v0 => "v0" | .v1 => "v1" | .v2 => "v2"
 def tpcName : TPc → String | .tidle => "tidle" | .t0 true => "t0own" | .t0 false => "t0stale" | .t1 => "t1"
 def locName : Loc → String
@@ -111,7 +113,7 @@ def transName (s : St) (a : Actor) (e : Env) : String :=
       | .u7, _ => (match s.para with | .none => "/Ok" | .timedOut => "/Timeout" | .canceled => "/Canceled")
       | _, _ => "")
   | .K => "K." ++ kpcName s.kpc ++ (match s.kpc with
-      | .k0 => b (s.tmo == 0) "/untimed" "/arm" | .k3 => b s.state "/selfwake" "/sleep"
+      | .k5d => b (s.cdis == 0) "/enabled" "/disabled" | .k0 => b (s.tmo == 0) "/untimed" "/arm" | .k3 => b s.state "/selfwake" "/sleep"
       | .k4 | .kc3 => b s.wco "/got" "/empty" | .k5c => b (canc s) "/canceled" "/no"
       | _ => "")
   | .V t => "V." ++ vpcName (s.vpcs t) ++ (match s.vpcs t with
@@ -219,7 +221,7 @@ def stepCands (w : W) (i : Nat) (p : PObj) (a : Actor) (envs : List Env) (ev : E
     | some l, some s' =>
       -- a new switch-out of the parker: its tail is not yet bound to an actor name (the `subscribe_leave` note of the
       -- previous tail may still be on its way: it is logged after the tail's last operation)
-      let kn := if s'.kpc == .k5 && s.kpc != .k5 then none else p.kname
+      let kn := if s'.kpc == .k5d && s.kpc != .k5d then none else p.kname
       let yn := if s'.ypend && !s.ypend then none else p.yname
       some (l, w'.set i (recordTok { p with st := s', kname := kn, yname := yn } ev), transName s a e)
     | _, _ => none
@@ -295,7 +297,7 @@ def cands (w : W) (_t : Nat) (ev : Event) : List Cand :=
   else if ev.kind == "note" then
     if ev.a1 != Tok.id w.parker then skipC "note/other" else
     if ev.op == "subscribe_enter" then
-      match findPark w (fun p => !p.isThr && p.st.kpc == .k5 && p.kname.isNone) with
+      match findPark w (fun p => !p.isThr && p.st.kpc == .k5d && p.kname.isNone) with
       | some (i, p) => [(obsLabel ev, w.set i { p with kname := some ev.actor }, "K.enter")]
       | none =>
         match findPark w (fun p => !p.isThr && p.st.ypend && p.yname.isNone) with
